@@ -313,6 +313,18 @@ Proof.
   destruct (single_subst s r p i c D Hp Hi Hc Hne) as [-> | [Hl ->]]; [now left | right]. now split.
 Qed.
 
+(* ... at every position; the only exclusions are the substitutions that move the separator *)
+Theorem from_text_single_subst_any s a p i c :
+  from_text s = Ok a -> rfind 49 s = Some p -> (i < length s)%nat -> c <> nth i s 0 ->
+  ((p < i)%nat -> c <> 49) -> (i = p -> ~ In 49 (firstn p s)) ->
+  from_text (subst i c s) = Err EType
+  \/ (lowerc c = lowerc (nth i s 0) /\ from_text (subst i c s) = Ok a).
+Proof.
+  intros H Hp Hi Hne Hc Hsep. unfold from_text, segwit_decode in *.
+  destruct (bech32_decode s) as [r|] eqn:D; [|discriminate].
+  destruct (single_subst_any s r p i c D Hp Hi Hne Hc Hsep) as [-> | [Hl ->]]; [now left | right]. now split.
+Qed.
+
 (* the decoder never accepts more than 108 characters *)
 Lemma from_text_length s a : from_text s = Ok a -> (length s <= MAXLEN)%nat.
 Proof.
